@@ -247,7 +247,10 @@ class StationaryVelocityFieldTransform(DenseVectorFieldTransform):
     def grid_(self, grid: Grid) -> StationaryVelocityFieldTransform:
         r"""Set sampling grid of transformation domain and codomain."""
         super().grid_(grid)
-        self.exp.align_corners = grid.align_corners()
+        # Do not modify module which may be shared with shallow copies of this transformation
+        exp = shallow_copy(self.exp)
+        exp.align_corners = grid.align_corners()
+        self.exp = exp
         return self
 
     def inverse(
